@@ -325,10 +325,7 @@ impl MappingInfo {
             // mappings in the mapping_info_ list.
             if self.start_address >= user.mapping.start_address
                 && self.start_address.saturating_add(self.size)
-                    <= user
-                        .mapping
-                        .start_address
-                        .saturating_add(user.mapping.size)
+                    <= user.mapping.start_address.saturating_add(user.mapping.size)
             {
                 return true;
             }
@@ -432,10 +429,8 @@ impl SoVersion {
                     if i >= comps.len() - 1 {
                         break;
                     }
-                    if let Some((pre, c)) = comp
-                        .char_indices()
-                        .rev()
-                        .find(|(_, c)| !c.is_ascii_digit())
+                    if let Some((pre, c)) =
+                        comp.char_indices().rev().find(|(_, c)| !c.is_ascii_digit())
                     {
                         if let Ok(pre) = comp[pre + c.len_utf8()..].parse() {
                             *comps[i + 1] = pre;
